@@ -793,7 +793,7 @@ Section Exact.
   Hypothesis Hb : boundary_ok b = true.
   Hypothesis Hpad : forallb is_blank_c pad = true.
   Hypothesis Heol : eol = [13; 10] \/ (eol = [] /\ rest = []).
-  Hypothesis Hmax : len (bline b last pad) + 2 <= maxline.
+  Hypothesis Hmax : len (bline b last pad) + 3 <= maxline.
   Hypothesis Hmaxb : len b + 6 <= maxline.
   Hypothesis Hnd : no_delim_line b c.
   Hypothesis Hlim : limit_ok limit (len c).
@@ -805,13 +805,111 @@ Section Exact.
     | PhA c2 : rem s = c2 ++ [13; 10] ++ tailz -> w ++ d ++ c2 = c ->
                (lfend = true -> w ++ d = [] \/ ends_lf (w ++ d)) ->
                phase w d lfend s
-    | PhB : d = [13] -> w = c -> rem s = 10 :: tailz ->
-            fst (rl maxline s) = [10] -> phase w d lfend s
+    | PhB : d = [13] -> w = c -> rem s = 10 :: tailz -> phase w d lfend s
     | PhC : d = [13; 10] -> w = c -> lfend = true -> rem s = tailz ->
             phase w d lfend s.
 
   Lemma maxline_pos : 0 < maxline.
   Proof. pose proof (bline_len b last pad). lia. Qed.
+
+  Lemma eol_cases : eol = [13; 10] \/ eol = [].
+  Proof. destruct Heol as [He | [He _]]; auto. Qed.
+
+  (* the reader hands out the delimiter line as a whole *)
+  Lemma read_delimiter s :
+    P s -> rem s = tailz ->
+    fst (rl maxline s) = bline b last pad ++ eol /\
+    rem (snd (rl maxline s)) = rest.
+  Proof.
+    intros Hs Hrem. pose proof (bline_no_lf b last pad Hb Hpad) as Hnolf.
+    destruct Heol as [He | [He Hr]].
+    - rewrite He. apply (read_line_crlf St rl rem L P G); auto.
+      + rewrite Hrem. unfold tailz. rewrite He. reflexivity.
+      + right. lia.
+    - assert (Hx : bline b last pad <> []).
+      { pose proof (bline_len b last pad) as H2. intros E.
+        rewrite E in H2. cbn in H2. lia. }
+      rewrite He, Hr, app_nil_r.
+      apply (read_line_eof St rl rem L P G); auto.
+      + rewrite Hrem. unfold tailz. rewrite He, Hr, !app_nil_r. reflexivity.
+      + right. lia.
+  Qed.
+
+  (* the piece read when only the LF of the delimiter's CRLF is left: the LF
+     alone, or the LF and the whole delimiter line *)
+  Lemma read_lf_delimiter s :
+    P s -> rem s = 10 :: tailz ->
+    (fst (rl maxline s) = [10] /\ rem (snd (rl maxline s)) = tailz) \/
+    (fst (rl maxline s) = 10 :: bline b last pad ++ eol /\
+     rem (snd (rl maxline s)) = rest).
+  Proof.
+    intros Hs Hrem. pose proof maxline_pos as Hmp.
+    pose proof (bline_no_lf b last pad Hb Hpad) as Hnolf.
+    pose proof (gr_concat _ _ _ _ _ G maxline s HL Hs) as Hcat.
+    pose proof (gr_line _ _ _ _ _ G maxline s HL Hs) as Hin.
+    pose proof (gr_full _ _ _ _ _ G maxline s HL Hs) as Hfull.
+    pose proof (gr_progress _ _ _ _ _ G maxline s HL Hs ltac:(lia)) as Hprog.
+    assert (Hne : fst (rl maxline s) <> []).
+    { apply Hprog. rewrite Hrem. discriminate. }
+    set (l := fst (rl maxline s)) in *. set (s' := snd (rl maxline s)) in *.
+    rewrite Hrem in Hcat.
+    destruct l as [|x l']; [congruence|]. cbn [app] in Hcat.
+    injection Hcat as -> Hcat.
+    destruct l' as [|y l''].
+    { left. split; [reflexivity | exact Hcat]. }
+    right.
+    destruct Heol as [He | [He Hr]].
+    - (* CRLF after the line: the piece cannot stop before it *)
+      unfold tailz in Hcat. rewrite He in Hcat.
+      assert (Hin' : no_inner_crlf (y :: l'')).
+      { intros x0 y0 E. apply (Hin (10 :: x0) y0). rewrite E. reflexivity. }
+      destruct (piece_cases (y :: l'') (rem s') (bline b last pad) rest Hcat Hin')
+        as (l1 & c2b & m & Hl & Hc2 & Hm).
+      destruct Hm as [[-> Hu] | [[-> [-> Hu]] | [-> [-> Hu]]]].
+      + exfalso. rewrite app_nil_r in Hl.
+        assert (Hnle : ~ ends_lf (10 :: y :: l'')).
+        { intros He'. apply ends_lf_tail in He'; [|discriminate].
+          revert He'. apply (not_ends_lf_in _ (bline b last pad) Hnolf);
+            [|discriminate]. exists c2b. rewrite Hl. exact Hc2. }
+        destruct (Hfull Hnle) as [Hf | Hf].
+        * rewrite len_cons, Hl in Hf.
+          assert (len l1 <= len (bline b last pad))
+            by (rewrite Hc2, len_app; pose proof (len_nonneg c2b); lia).
+          lia.
+        * rewrite Hu in Hf. destruct c2b; discriminate.
+      + exfalso. rewrite app_nil_r in Hc2. subst l1.
+        assert (Hnle : ~ ends_lf (10 :: y :: l'')).
+        { intros [y0 Hy]. rewrite Hl in Hy.
+          change (10 :: bline b last pad ++ [13])
+            with ((10 :: bline b last pad) ++ [13]) in Hy.
+          apply app_inj_tail in Hy as [_ Hy]. discriminate. }
+        destruct (Hfull Hnle) as [Hf | Hf].
+        * rewrite len_cons, Hl, len_app in Hf. change (len [13]) with 1 in Hf.
+          lia.
+        * rewrite Hu in Hf. discriminate.
+      + rewrite app_nil_r in Hc2. subst l1. rewrite Hl, He.
+        split; [reflexivity | exact Hu].
+    - (* the line ends the input *)
+      unfold tailz in Hcat. rewrite He, Hr, !app_nil_r in Hcat.
+      assert (Hnle : ~ ends_lf (10 :: y :: l'')).
+      { intros He'. apply ends_lf_tail in He'; [|discriminate].
+        revert He'. apply (not_ends_lf_in _ (bline b last pad) Hnolf);
+          [|discriminate]. exists (rem s'). symmetry. exact Hcat. }
+      destruct (Hfull Hnle) as [Hf | Hf].
+      + exfalso. rewrite len_cons in Hf.
+        assert (len (y :: l'') <= len (bline b last pad))
+          by (rewrite <- Hcat, len_app; pose proof (len_nonneg (rem s')); lia).
+        lia.
+      + rewrite Hf, app_nil_r in Hcat. rewrite Hcat, He, Hr, app_nil_r.
+        split; [reflexivity | exact Hf].
+  Qed.
+
+  Lemma concat_opt (pieces : list bytes) piece :
+    List.concat (match piece with Some p => pieces ++ [p] | None => pieces end)
+    = List.concat pieces ++ optb piece.
+  Proof.
+    destruct piece; cbn [optb]; [apply concat_snoc | rewrite app_nil_r; reflexivity].
+  Qed.
 
   Lemma rlob_inv : forall fuel pieces d lfend nread s,
     P s -> phase (List.concat pieces) d lfend s ->
@@ -831,10 +929,8 @@ Section Exact.
     pose proof (gr_inv _ _ _ _ _ G maxline s HL Hs) as Hs1.
     pose proof (gr_full _ _ _ _ _ G maxline s HL Hs) as Hfull.
     pose proof (gr_progress _ _ _ _ _ G maxline s HL Hs ltac:(lia)) as Hprog.
-    pose proof (gr_lone_lf _ _ _ _ _ G maxline maxline s HL HL Hs ltac:(lia))
-      as Hlone.
     cbn [rlob].
-    destruct Hph as [c2 Hrem Hc Hlf | Hd Hw Hrem Hnext | Hd Hw Hlf Hrem].
+    destruct Hph as [c2 Hrem Hc Hlf | Hd Hw Hrem | Hd Hw Hlf Hrem].
     - (* content *)
       rewrite (limit_hit_false limit (len c) nread Hlim)
         by (rewrite Hn, <- Hc, !len_app; pose proof (len_nonneg c2); lia).
@@ -847,7 +943,7 @@ Section Exact.
       { intros Hn'. destruct (Hfull Hn') as [Hx | Hx]; [left; lia | right; exact Hx]. }
       destruct (step_content maxline b c (List.concat pieces) d lfend l (rem s1)
                   c2 tailz Hchars Hmaxb Hnd Hc Hlf Hne Hin Hfull' Hcat)
-        as (piece & d' & lf' & Hstep & Hall & Hlf' & Hcr & Hnext).
+        as (piece & d' & lf' & Hstep & Hall & Hlf' & Hnext).
       rewrite (is_nil_false l Hne), Hstep.
       assert (Hlen : len l + len (rem s1) = len (rem s)).
       { rewrite Hrem, <- Hcat, len_app. reflexivity. }
@@ -856,60 +952,50 @@ Section Exact.
         pose proof (len_nonneg l). lia. }
       apply IH.
       + exact Hs1.
-      + rewrite concat_snoc.
+      + rewrite concat_opt.
         destruct Hnext as [(c2' & Hu & Hc') | [(Hd' & Hw' & Hu) |
                                                (Hd' & Hw' & Hlf2 & Hu)]].
         * apply (PhA _ _ _ _ c2'); [exact Hu | |].
           -- rewrite <- Hc'. lnorm. reflexivity.
           -- intros E2. right. apply Hlf'. exact E2.
-        * apply PhB; [exact Hd' | exact Hw' | exact Hu |].
-          apply Hlone; [apply Hcr; exact Hd' | exists tailz; exact Hu].
+        * apply PhB; [exact Hd' | exact Hw' | exact Hu].
         * apply PhC; [exact Hd' | exact Hw' | exact Hlf2 | exact Hu].
-      + rewrite concat_snoc, Hall, len_app, Hn. reflexivity.
+      + rewrite concat_opt, Hall, len_app, Hn. reflexivity.
       + lia.
-    - (* the lone LF of the delimiter *)
+    - (* only the LF of the delimiter's CRLF is left *)
       subst d.
       rewrite (limit_hit_false limit (len c) nread Hlim)
         by (rewrite Hn, Hw, len_app; change (len [13]) with 1; lia).
-      destruct (rl maxline s) as [l s1] eqn:E. cbn [fst snd] in *.
-      subst l. rewrite Hrem in Hcat. cbn [app] in Hcat.
-      injection Hcat as Hcat.
-      cbn [is_nil]. rewrite step_lone_lf.
-      apply IH.
-      + exact Hs1.
-      + rewrite concat_snoc, app_nil_r.
-        apply PhC; [reflexivity | exact Hw | reflexivity | exact Hcat].
-      + rewrite concat_snoc, app_nil_r, Hn, !len_app.
-        change (len [13; 10]) with 2. change (len [13]) with 1.
-        change (len [10]) with 1. lia.
-      + rewrite Hrem, len_cons, <- Hcat in Hf. lia.
+      destruct (read_lf_delimiter s Hs Hrem) as [[Hl Hr] | [Hl Hr]];
+        destruct (rl maxline s) as [l s1] eqn:E; cbn [fst snd] in *; subst l.
+      + (* the LF alone *)
+        cbn [is_nil]. rewrite step_lone_lf.
+        apply IH.
+        * exact Hs1.
+        * apply PhC; [reflexivity | exact Hw | reflexivity | exact Hr].
+        * rewrite Hn, !len_app.
+          change (len [13; 10]) with 2. change (len [13]) with 1.
+          change (len [10]) with 1. lia.
+        * rewrite Hrem, len_cons, <- Hr in Hf. lia.
+      + (* the LF glued to the delimiter line *)
+        cbn [is_nil].
+        rewrite (step_lf_delimiter b last pad eol lfend Hb Hpad eol_cases).
+        exists pieces, s1.
+        split; [|split; [exact Hw | split; [exact Hr | exact Hs1]]].
+        f_equal. rewrite Hn, Hw, len_cons, !len_app. change (len [13]) with 1.
+        unfold nfin. lia.
     - (* the delimiter line *)
       subst d lfend.
       rewrite (limit_hit_false limit (len c) nread Hlim)
         by (rewrite Hn, Hw, len_app; change (len [13; 10]) with 2; lia).
-      pose proof (bline_no_lf b last pad Hb Hpad) as Hnolf.
-      assert (Hread : fst (rl maxline s) = bline b last pad ++ eol /\
-                      rem (snd (rl maxline s)) = rest).
-      { destruct Heol as [He | [He Hr]].
-        - rewrite He. apply (read_line_crlf St rl rem L P G); auto.
-          rewrite Hrem. unfold tailz. rewrite He. reflexivity.
-        - assert (Hx : bline b last pad <> []).
-          { pose proof (bline_len b last pad) as H2. intros E.
-            rewrite E in H2. cbn in H2. lia. }
-          rewrite He, Hr, app_nil_r.
-          apply (read_line_eof St rl rem L P G); auto.
-          + rewrite Hrem. unfold tailz. rewrite He, Hr, !app_nil_r.
-            reflexivity.
-          + right. lia. }
-      destruct Hread as [Hl Hrest].
+      destruct (read_delimiter s Hs Hrem) as [Hl Hrest].
       destruct (rl maxline s) as [l s1] eqn:E. cbn [fst snd] in *.
       assert (Hne : l <> []).
       { rewrite Hl. pose proof (bline_len b last pad) as H2. intros E2.
         apply (f_equal (@len Z)) in E2. rewrite len_app in E2.
         pose proof (len_nonneg eol). change (len (@nil Z)) with 0 in E2. lia. }
       rewrite (is_nil_false l Hne), Hl.
-      rewrite (step_delimiter b last pad eol Hb Hpad)
-        by (destruct Heol as [He | [He _]]; auto).
+      rewrite (step_delimiter b last pad eol Hb Hpad eol_cases).
       exists pieces, s1. split; [|split; [exact Hw | split; [exact Hrest | exact Hs1]]].
       f_equal. rewrite Hn, Hw, !len_app. change (len [13; 10]) with 2.
       unfold nfin. lia.
@@ -944,7 +1030,7 @@ Theorem lines_to_boundary_exact :
     boundary_ok b = true ->
     forallb is_blank_c pad = true ->
     (eol = [13; 10] \/ (eol = [] /\ rest = [])) ->
-    len (bline b last pad) + 2 <= maxline ->
+    len (bline b last pad) + 3 <= maxline ->
     len b + 6 <= maxline ->
     no_delim_line b c ->
     limit_ok limit (len c) ->
@@ -1056,9 +1142,6 @@ Proof.
   - intros lim s _ _ Hk Hs. apply lf_progress; assumption.
   - intros lim s _ _. apply lf_no_inner_crlf.
   - intros lim s _ _. apply lf_full.
-  - intros lim lim' s _ _ _ Hk _ [t Ht]. rewrite Ht, lf_line_cons.
-    replace (lim' =? 0) with false by (symmetry; apply Z.eqb_neq; exact Hk).
-    reflexivity.
 Qed.
 
 (* ---- the CRLF-splitting reader *)
@@ -1152,68 +1235,14 @@ Proof.
       * right. exact Hk.
 Qed.
 
-(* the reader separates a CR from the LF behind it *)
-Definition divided (k : Z) (t : bytes) : Prop :=
-  (exists z, fst (crlf_line k t) = z ++ [13]) /\
-  (exists u, snd (crlf_line k t) = 10 :: u).
-
-(* that happens only at a size cut *)
-Lemma divided_cut : forall s k, divided k s -> len (fst (crlf_line k s)) = k.
-Proof.
-  induction s as [|x r IH]; intros k [[z Hz] [u Hu]].
-  - destruct z; discriminate.
-  - rewrite crlf_line_cons in *. destruct (k =? 0) eqn:E0.
-    { destruct z; discriminate. }
-    apply Z.eqb_neq in E0. destruct r as [|y r']; [discriminate|].
-    destruct ((x =? 13) && (y =? 10) && negb (k =? 1)) eqn:E.
-    + apply andb_true_iff in E as [E _]. apply andb_true_iff in E as [_ E].
-      apply Z.eqb_eq in E. subst y. cbn [fst] in Hz.
-      destruct z as [|a [|a' z]]; cbn [app] in Hz; try discriminate.
-      destruct z; discriminate.
-    + cbn [fst snd] in *. rewrite len_cons.
-      destruct (fst (crlf_line (k - 1) (y :: r'))) as [|e l'] eqn:El.
-      * assert (k - 1 = 0).
-        { destruct (Z.eq_dec (k - 1) 0) as [H0|H0]; [exact H0|].
-          exfalso. apply (crlf_progress (y :: r') (k - 1) H0); [discriminate|].
-          exact El. }
-        rewrite len_nil. lia.
-      * destruct z as [|a z]; [discriminate|]. cbn [app] in Hz.
-        injection Hz as _ Hz.
-        rewrite <- El in Hz. rewrite <- El.
-        rewrite (IH (k - 1)); [lia|]. split; [exists z; exact Hz | exists u; exact Hu].
-Qed.
-
-Definition suffix (t s : bytes) : Prop := exists p, s = p ++ t.
-Definition crlf_lims (maxline : Z) (k : Z) : Prop := k = -1 \/ k = maxline.
-(* the CRLF reader never separates a CR from its LF on the rest of s *)
-Definition crlf_safe (maxline : Z) (s : bytes) : Prop :=
-  forall t, suffix t s -> ~ divided maxline t.
-
-Lemma crlf_safe_short maxline s : len s <= maxline -> crlf_safe maxline s.
-Proof.
-  intros H t [p ->] Hd. pose proof (divided_cut t maxline Hd) as Hc.
-  destruct Hd as [_ [u Hu]].
-  pose proof (crlf_concat t maxline) as Hcat. rewrite Hu in Hcat.
-  rewrite len_app in H. rewrite <- Hcat, len_app, len_cons in H.
-  pose proof (len_nonneg p). pose proof (len_nonneg u). lia.
-Qed.
-
-Theorem crlf_reader_good maxline :
-  good_reader bytes crlf_line idb (crlf_lims maxline) (crlf_safe maxline).
+Theorem crlf_reader_good : good_reader bytes crlf_line idb any_lim any_state.
 Proof.
   split; unfold idb.
-  - intros lim s _ Hs t [p Hp]. apply Hs.
-    exists (fst (crlf_line lim s) ++ p).
-    rewrite <- (crlf_concat s lim) at 1. rewrite Hp. lnorm. reflexivity.
+  - intros; exact I.
   - intros lim s _ _. apply crlf_concat.
   - intros lim s _ _ Hk Hs. apply crlf_progress; assumption.
   - intros lim s _ _. apply crlf_no_inner_crlf.
   - intros lim s _ _. apply crlf_full.
-  - intros lim lim' s Hl _ Hs _ Hz Hu. exfalso.
-    destruct Hl as [-> | ->].
-    + pose proof (divided_cut s (-1) (conj Hz Hu)) as Hc.
-      pose proof (len_nonneg (fst (crlf_line (-1) s))). lia.
-    + apply (Hs s); [exists []; reflexivity | split; assumption].
 Qed.
 
 (* ------------------------------------------------------------------ *)
@@ -1397,7 +1426,7 @@ Section Roundtrip.
   Hypothesis HL1 : L (-1).
   Variable b : bytes.
   Hypothesis Hb : boundary_ok b = true.
-  Hypothesis Hmax : len b + 6 <= maxline.
+  Hypothesis Hmax : len b + 7 <= maxline.
 
   Lemma read_hdr_lines : forall lines acc s rest fuel,
     Forall line_ok lines -> P s ->
@@ -1486,7 +1515,7 @@ Section Roundtrip.
     intros (Hn & Hf & Ht & (hs & Hph & Hmeta & Hne1 & Hne2) & Hocc) Hs Hrem
            Heol Hlim Hfuel.
     pose proof (bline_len b last []) as Hbl.
-    assert (Hblm : len (bline b last []) + 2 <= maxline).
+    assert (Hblm : len (bline b last []) + 3 <= maxline).
     { unfold bline, dashb. destruct last; rewrite !len_app, !len_cons;
         change (len (@nil Z)) with 0; lia. }
     rewrite hdr_bytes_lines in Hrem.
@@ -1512,7 +1541,7 @@ Section Roundtrip.
     { rewrite Hr1, !len_app. change (len [13; 10]) with 2. lia. }
     destruct (lines_to_boundary_exact St rl rem L P G maxline b last []
                 (p_content p) eol rest (plimit B p) s1 fuel0
-                HLm Hb eq_refl Heol Hblm Hmax Hocc Hlimok Hs1 Hr1 Hf1)
+                HLm Hb eq_refl Heol Hblm ltac:(lia) Hocc Hlimok Hs1 Hr1 Hf1)
       as (pieces & s2 & E2 & Hc & Hr2 & Hs2).
     exists s1, hs, pieces, s2.
     split; [exact E1|]. split; [exact Hph|]. split; [|auto].
@@ -1635,7 +1664,7 @@ Theorem multipart_roundtrip :
   forall (maxline : Z) (b : bytes) (p : part) (ps : list part) (final : bool)
          (ctv : list Z) (clen : Z) (s : St) (fuel : nat),
     L maxline -> L (-1) ->
-    boundary_ok b = true -> len b + 6 <= maxline ->
+    boundary_ok b = true -> len b + 7 <= maxline ->
     ctype_names ctv b ->
     Forall (part_ok b) (p :: ps) ->
     P s -> rem s = encode b (p :: ps) final ->
@@ -1696,7 +1725,7 @@ Theorem reader_independent :
     good_reader St1 rl1 rem1 L1 P1 -> good_reader St2 rl2 rem2 L2 P2 ->
   forall maxline b p ps final ctv clen s1 s2 fuel,
     L1 maxline -> L1 (-1) -> L2 maxline -> L2 (-1) ->
-    boundary_ok b = true -> len b + 6 <= maxline ->
+    boundary_ok b = true -> len b + 7 <= maxline ->
     ctype_names ctv b -> Forall (part_ok b) (p :: ps) ->
     P1 s1 -> P2 s2 ->
     rem1 s1 = encode b (p :: ps) final -> rem2 s2 = encode b (p :: ps) final ->
@@ -1861,38 +1890,28 @@ Example ex_roundtrip_crlf_small_limit :
              /\ map f_bytes fs = map p_content ex_parts.
 Proof. eexists. split; vm_compute; reflexivity. Qed.
 
-(* ---- where the faithful model does NOT return the content *)
-
-(* (a) candidate defect.  The CRLF-splitting reader (CachedInput) with a line
-   limit: when the CR of the CRLF in front of the delimiter is the last byte
-   of a full piece, the next piece is "\n--b\r\n", the carried CR makes it
-   "\r\n--b\r\n", which does not start with "--": the delimiter is missed
-   and the following parts are swallowed.  Witness with line limit 8; the
-   implementation does the same with 65536 (content of 65535 CRLF-free
-   bytes), see the check's large correspondence cases and its monitor. *)
-Theorem crlf_cut_divides_delimiter_refuted :
-  exists maxline b c rest input,
-    input = c ++ [13; 10] ++ bline b false [] ++ [13; 10] ++ rest /\
-    boundary_ok b = true /\ len (bline b false []) + 2 <= maxline /\
-    len b + 6 <= maxline /\ no_delim_line b c /\
-    ~ crlf_safe maxline input /\
-    exists pieces n,
-      rlob bytes crlf_line maxline (fuel_for input) (dashb b)
-           (dashb b ++ [45; 45]) None [] [] true 0 input
-        = RDone pieces (-1) n [] /\
-      List.concat pieces <> c.
+(* The case that used to fail (fixed in /repo by 0c4c429): the CRLF-splitting
+   reader separates the CR of the CRLF in front of the delimiter from its LF
+   (line limit 8 here, 65536 and a content of 65535 CRLF-free bytes in the
+   implementation); the next piece is "\n--b\r\n".  It is an instance of
+   lines_to_boundary_exact now (crlf_reader_good holds for every input);
+   computed here for a witness. *)
+Example crlf_cut_divides_delimiter_ok :
+  let b := s2l "b" in let c := s2l "aaaaaaa" in let rest := s2l "next" in
+  let input := c ++ [13; 10] ++ bline b false [] ++ [13; 10] ++ rest in
+  fst (crlf_line 8 input) = c ++ [13] /\
+  exists pieces n,
+    rlob bytes crlf_line 8 (fuel_for input) (dashb b) (dashb b ++ [45; 45])
+         None [] [] true 0 input = RDone pieces 0 n rest /\
+    List.concat pieces = c.
 Proof.
-  exists 8, (s2l "b"), (s2l "aaaaaaa"), (s2l "next"). eexists.
-  split; [reflexivity|]. split; [reflexivity|].
-  split; [vm_compute; discriminate|]. split; [vm_compute; discriminate|].
-  split; [apply no_delim_lineb_sound; reflexivity|]. split.
-  - intros H. apply (H _ (ex_intro _ [] eq_refl)). split.
-    + exists (s2l "aaaaaaa"). reflexivity.
-    + eexists. vm_compute. reflexivity.
-  - eexists _, _. split; [vm_compute; reflexivity|]. vm_compute. discriminate.
+  cbv zeta. split; [reflexivity|]. eexists _, _.
+  split; vm_compute; reflexivity.
 Qed.
 
-(* (b) the hypothesis cannot be weakened to RFC 2046's "CRLF--b does not
+(* ---- where the faithful model does NOT return the content *)
+
+(* (a) the hypothesis cannot be weakened to RFC 2046's "CRLF--b does not
    occur in the content": a line that follows a bare LF (or is the first
    line of the content) and reads --b ends the part for the LF-splitting
    reader.  Python's cgi module behaved the same way; not counted as a
@@ -1914,7 +1933,7 @@ Proof.
   eexists _, _, _. split; [vm_compute; reflexivity|]. vm_compute. discriminate.
 Qed.
 
-(* (c) on bodies that are not RFC 7578 encodings the two readers may
+(* (b) on bodies that are not RFC 7578 encodings the two readers may
    disagree (a bare LF in front of a delimiter line) *)
 Theorem reader_independent_any_input_refuted :
   exists ctv body,
@@ -1928,7 +1947,7 @@ Proof.
   vm_compute. discriminate.
 Qed.
 
-(* (d) the header codec is a hypothesis of the round trip for a reason: a
+(* (c) the header codec is a hypothesis of the round trip for a reason: a
    name that ends in a backslash in front of a filename parameter does not
    come back (the C18 finding param-backslash-before-next-param) *)
 Theorem headers_decode_backslash_refuted :
